@@ -54,6 +54,12 @@ def elem(t):
         return None
     if t[0] in ("list", "set"):
         return t[1]
+    if t[0] == "tuple" and len(t) > 1 and all(x is not None for x in t[1:]):
+        # iterating a tuple literal: one element type, or the union of the object types it mixes
+        if all(x == t[1] for x in t[1:]):
+            return t[1]
+        if all(x[0] == "obj" for x in t[1:]):
+            return ("union",) + tuple(dict.fromkeys(t[1:]))
     return None
 
 
@@ -352,6 +358,9 @@ class FuncTypes:
             t = None
             for x in e.elts:
                 t = t or self.type_of(x, depth)
+            ts = [self.type_of(x, depth) for x in e.elts]
+            if len(ts) > 1 and all(x is not None and x[0] == "obj" for x in ts) and len(set(ts)) > 1:
+                t = ("union",) + tuple(dict.fromkeys(ts))
             if isinstance(e, ast.List) and len(e.elts) == 2:
                 a, b = self.type_of(e.elts[0], depth), self.type_of(e.elts[1], depth)
                 if a and b and a[0] == "obj" and b[0] == "enum":
@@ -480,6 +489,16 @@ class FuncTypes:
                             out.append(r.classes[sc].methods[f.attr])
                     return out, True
                 return [], True
+            if b and b[0] == "union":
+                out = []
+                for m0 in b[1:]:
+                    m = r.lookup_method(m0[1], f.attr)
+                    if m is not None and m not in out:
+                        out.append(m)
+                        for sc in r.subclasses(m0[1]):
+                            if sc != m0[1] and f.attr in r.classes[sc].methods and r.classes[sc].methods[f.attr] not in out:
+                                out.append(r.classes[sc].methods[f.attr])
+                return out, True
             if b is not None:
                 return [], True  # list/set/dict/prim method: not into the package
             cands = []
